@@ -24,17 +24,18 @@ Order   == <<"B", "A">>                                \* inherited programs loa
 VARIABLES now, mtime, ver,        \* files
           bin,                    \* p -> [present, mtime, fmt, vers (f -> version it embodies), sver]
           bootS,                  \* version of S the running driver booted with
+          saveB,                  \* does program B ask for a saved binary at all (#pragma save_binary)?
           stale                   \* history: some load used a binary that did not embody the current versions
-vars == <<now, mtime, ver, bin, bootS, stale>>
+vars == <<now, mtime, ver, bin, bootS, saveB, stale>>
 
 NoBin == [present |-> FALSE, mtime |-> 0, fmt |-> TRUE, vers |-> [f \in Files |-> 0], sver |-> 0]
 Init == /\ now = 5 /\ mtime = [f \in Files |-> CASE f = "A" -> 1 [] f = "B" -> 2 [] f = "H" -> 3 [] f = "S" -> 4]
-        /\ ver = [f \in Files |-> 1] /\ bin = [p \in Progs |-> NoBin] /\ bootS = 1 /\ stale = FALSE
+        /\ ver = [f \in Files |-> 1] /\ bin = [p \in Progs |-> NoBin] /\ bootS = 1 /\ saveB \in BOOLEAN /\ stale = FALSE
 
-Edit(f)  == now' = now + 1 /\ mtime' = [mtime EXCEPT ![f] = now] /\ ver' = [ver EXCEPT ![f] = @ + 1] /\ UNCHANGED <<bin, bootS, stale>>
-Touch(f) == now' = now + 1 /\ mtime' = [mtime EXCEPT ![f] = now] /\ UNCHANGED <<ver, bin, bootS, stale>>
-Restart  == bootS' = ver["S"] /\ UNCHANGED <<now, mtime, ver, bin, stale>>
-OldFormat(p) == bin[p].present /\ bin' = [bin EXCEPT ![p].fmt = FALSE] /\ UNCHANGED <<now, mtime, ver, bootS, stale>>
+Edit(f)  == now' = now + 1 /\ mtime' = [mtime EXCEPT ![f] = now] /\ ver' = [ver EXCEPT ![f] = @ + 1] /\ UNCHANGED <<bin, bootS, saveB, stale>>
+Touch(f) == now' = now + 1 /\ mtime' = [mtime EXCEPT ![f] = now] /\ UNCHANGED <<ver, bin, bootS, saveB, stale>>
+Restart  == bootS' = ver["S"] /\ UNCHANGED <<now, mtime, ver, bin, saveB, stale>>
+OldFormat(p) == bin[p].present /\ bin' = [bin EXCEPT ![p].fmt = FALSE] /\ UNCHANGED <<now, mtime, ver, bootS, saveB, stale>>
 
 \* may the binary of q be used, given the binaries b as they are at that moment?
 Allowed(q, b) ==
@@ -44,7 +45,8 @@ Allowed(q, b) ==
 
 Deps(q) == Src(q) \cup Inh(q)
 Cur(q)  == [f \in Files |-> IF f \in Deps(q) THEN ver[f] ELSE 0]
-Compiled(q) == [present |-> TRUE, mtime |-> now, fmt |-> TRUE, vers |-> Cur(q), sver |-> bootS]
+Compiled(q) == IF q = "B" /\ ~saveB THEN bin[q]      \* no #pragma save_binary: nothing is written
+               ELSE [present |-> TRUE, mtime |-> now, fmt |-> TRUE, vers |-> Cur(q), sver |-> bootS]
 
 \* Load of the programs in qs (a sequence, inherited first); used : q -> BOOLEAN is the driver's decision
 AfterLoad(qs, used) ==
@@ -59,7 +61,7 @@ Load(p, used) ==
      /\ bin' = bs[2]
      /\ stale' = (stale \/ \E k \in DOMAIN qs : used[qs[k]] /\ (bin[qs[k]].vers # Cur(qs[k]) \/ bin[qs[k]].sver # bootS))
      /\ now' = now + 1
-     /\ UNCHANGED <<mtime, ver, bootS>>
+     /\ UNCHANGED <<mtime, ver, bootS, saveB>>
 
 NeverStale == ~stale
 =============================================================================
